@@ -55,6 +55,10 @@ def cone_case(draw, kind=None, max_n=5, kinds="lqs", dims=None, allow_eq=True, q
                 sdelta=draw(st.sampled_from([0.25, 0.5, 1.0, 2.0])),
                 zdelta=draw(st.sampled_from([0.25, 0.5, 1.0, 2.0])),
                 junk=draw(st.sampled_from([0.0, 0.0, 7.5, -33.0, 1e3])))
+    if kind == "feas" and not qp and p >= 1 and draw(st.integers(0, 4)) == 0:
+        # homogeneous cone constraints (h = 0) with a non-zero equality right-hand side, e.g. standard-form LPs:
+        # here 'dual infeasible' would have to be told from 'optimal' by the size of A*x alone
+        case["homog"] = draw(st.sampled_from([1.0, 1.0, 4.0, 16.0]))
     if kind in ("pinf", "dinf", "rand"):
         case["x1"] = [draw(dy()) for _ in range(n)]
         case["c0"] = [draw(dy()) for _ in range(n)]
@@ -115,7 +119,14 @@ def materialize(case):
     z0 = interior(case["zu"], case["zdelta"], dims)
     out = dict(dims=dims, n=n, p=p, kind=kind)
     if kind == "feas":
+        if case.get("homog") and float(x0 @ x0) > 0 and "B" not in case:
+            x0 = x0 * case["homog"]
+            s0 = s0 * case["homog"]
+            Gs = Gs - np.outer(Gs @ x0 + s0, x0) / float(x0 @ x0)      # now Gs x0 = -s0, i.e. h = 0
+            out["homog"] = True
         h = Gs @ x0 + s0
+        if out.get("homog"):
+            h = np.zeros_like(h)
         b = A @ x0
         c = -(Gs.T @ z0) - A.T @ y0
         out.update(x0=x0, s0=s0, z0=z0, y0=y0)
